@@ -236,6 +236,23 @@ func c03Pairs(c *Ctx, r *rng.R) {
 			b = cty.SetVal(ms)
 		}
 	}
+	if r.Chance(6) {
+		// structures of different shape with a dynamic value inside one of them: whatever Equals answers, it answers
+		// the same in both directions (an attribute more, an element more, another key)
+		st, n := cty.StringVal, cty.NumberIntVal
+		shapes := [][2]cty.Value{
+			{cty.ObjectVal(map[string]cty.Value{"a": cty.DynamicVal}), cty.ObjectVal(map[string]cty.Value{"a": st("x"), "b": n(1)})},
+			{cty.ObjectVal(map[string]cty.Value{"a": cty.DynamicVal, "b": n(1)}), cty.ObjectVal(map[string]cty.Value{"a": st("x"), "c": n(1)})},
+			{cty.TupleVal([]cty.Value{cty.DynamicVal}), cty.TupleVal([]cty.Value{st("x"), n(1)})},
+			{cty.TupleVal([]cty.Value{cty.ObjectVal(map[string]cty.Value{"a": cty.DynamicVal})}), cty.TupleVal([]cty.Value{cty.ObjectVal(map[string]cty.Value{"a": n(1), "b": n(2)})})},
+			{cty.ObjectVal(map[string]cty.Value{"a": cty.DynamicVal}), cty.ObjectVal(map[string]cty.Value{"a": st("x")})},
+		}
+		sh := shapes[r.Intn(len(shapes))]
+		a, b, rel = sh[0], sh[1], "shape-with-dynamic"
+		if r.Bool() {
+			a, b = b, a
+		}
+	}
 	if !stringsOK(a) || !stringsOK(b) {
 		c.Count("skipped_quote_domain")
 		return
